@@ -511,6 +511,19 @@ func (r *RefRun) decide(s *Step) bool {
 		}
 		return true
 	}
+	if stopped && s.Deploy != nil {
+		switch r.need(s.Deploy).st {
+		case Pending:
+			delete(r.Outcome, s.ID)
+			return false
+		case Impossible:
+			// it waits for a deployment configuration that will never come; the stop condition closes it
+			oc.What = "stuck-deploy"
+			r.setAll(s.ID, pluginOutputs, map[string]Status{"starting.started": I, "outputs.success": I, "outputs.error": I, "outputs.cancelled_early": I, "crashed.error": I, "deploy_failed.error": I}, N)
+			r.set(s.ID, "closed", "result", Produced, map[string]any{"cancelled": true, "close_requested": false})
+			return true
+		}
+	}
 	if stopped {
 		// the stop condition competes with the step's own progress: which terminal stage it
 		// reports and whether the plugin runs depends on timing
@@ -540,10 +553,6 @@ func (r *RefRun) decide(s *Step) bool {
 	case Impossible:
 		oc.What = "stuck-deploy"
 		r.setAll(s.ID, pluginOutputs, map[string]Status{"starting.started": I, "outputs.success": I, "outputs.error": I, "outputs.cancelled_early": I}, N)
-		if stopped {
-			// it waits for a deployment configuration that will never come; the stop condition closes it
-			r.set(s.ID, "closed", "result", Produced, map[string]any{"cancelled": true, "close_requested": false})
-		}
 		return true
 	case Never, Unknown:
 		oc.What = "stuck-deploy"
